@@ -111,9 +111,29 @@ PROPS = {
                  "objects with initial date 0 (never produced by the server: every creating handler stamps the clock)"],
         assumptions=[],
     ),
+    "C16": dict(
+        modules=["harness.c16"],
+        level="other",
+        explanation="Bounded symbolic execution of the real version handling: acceptance/echo with arbitrary 32-bit "
+                    "major/minor through process_request; operation gating for every Operation member x version against "
+                    "an independent introduced-in table; Query/DiscoverVersions consistency; attribute names reported "
+                    "per version against an independent added/deprecated table; response encoding version.",
+        stubs=["FakeSession", "RecordingCrypto", "NullLogger", "engine.time pinned"],
+        outside=["version-conditional payload fields of the codec (the codec gates are checked with the C01 structure "
+                 "harnesses)", "DiscoverVersions client lists longer than 3"],
+        assumptions=["introduced-in / added / deprecated tables transcribed from the KMIP 1.0-2.0 specifications"],
+    ),
 }
 
 CLAIMS = {
+    "C16": dict(
+        text="For every 32-bit (major, minor) the server accepts exactly the six supported versions and echoes the "
+             "accepted one in header, return value and attribute policy; every operation is refused as not supported "
+             "exactly below its introducing version; Query advertises only available operations; DiscoverVersions "
+             "returns exactly the supported subset, newest first; attributes reported under a version are added and "
+             "not deprecated in it.",
+        note="Independent tables are hand-transcribed; handlers run over the stub store.",
+    ),
     "C14": dict(
         text="For every filter kind named in the statement (and listed pairs) with values over the menus/ranges, and "
              "for stores of up to 3 objects with symbolic dates, owners, policies, offset and maximum, the identifiers "
